@@ -23,3 +23,5 @@ Definition x_spec_eof_report := spec_eof_report.
 Definition x_spec_bof := spec_bof.
 Definition x_spec_nframes := spec_nframes.
 Definition x_is_real := is_real.
+Definition x_noclampb := noclampb.
+Definition x_nophaseb := nophaseb.
